@@ -64,14 +64,22 @@ def generate(rng: random.Random, tier: str, seed: int) -> dict:
 
 # ---------------------------------------------------------------- cosmetic rewrites
 def _commute(expr: str, rng: random.Random) -> str:
-    """Swap operands of a top-level + or * when the expression has the simple `a op b` shape."""
-    m = re.fullmatch(r"\s*([\w.]+)\s*([+*])\s*([\w.]+)\s*", expr)
-    if m and rng.random() < 0.7:
-        return f"{m.group(3)} {m.group(2)} {m.group(1)}"
-    m = re.fullmatch(r"\s*([\w.]+) \* ([\w.]+) \+ ([\w.]+)\s*", expr)
-    if m and rng.random() < 0.7:
-        return f"{m.group(3)} + {m.group(2)} * {m.group(1)}"
-    return expr
+    """Swap the operands of + and * nodes at every depth (seeded), e.g. a*d + b*c -> c*b + d*a."""
+    import ast
+    try:
+        tree = ast.parse(expr, mode="eval")
+    except SyntaxError:
+        return expr
+
+    class Swap(ast.NodeTransformer):
+        def visit_BinOp(self, node):
+            self.generic_visit(node)
+            if isinstance(node.op, (ast.Add, ast.Mult)) and rng.random() < 0.6:
+                node.left, node.right = node.right, node.left
+            return node
+
+    out = ast.unparse(Swap().visit(tree))
+    return out
 
 
 def _permute(obj, rng: random.Random, stats: dict, path=()):
